@@ -17,6 +17,10 @@ CLAIMED = {
    text='Machine-checked proof (Lean 4): process_sound / process_rejects — for ALL operand lists (any count, any kinds) and all i64 values, on both cores: if the model of process succeeds, the independent legality spec accepts the operands and the bytes are its ISA encoding; what the spec rejects is an error; process never panics. Tie: Gen tables + 627k-case window/confusion enumeration (all registers x values 130 beyond both range ends, kind and count confusions, default core and ATtiny20) through build_str against model and spec.',
    note='Trusted base as C01; legality spec (Isa.surface) hand-written from the manual.',
    technique='Lean 4 theorem (soundness for all operand lists) + exhaustive window enumeration through the real library', ref='6/C04'),
+ 'C07': dict(
+   text='Machine-checked proof (Lean 4): hex_roundtrip — for EVERY image of at most 2^32 bytes with arbitrary contents (empty image included) the text the writer model produces splits into lines that all parse as well-formed Intel HEX records under an independent reader that verifies length field and checksum, ends in the single EOF record, and decodes (types 00/01/02/04, segment/linear base) to exactly byte i at address i, nothing else (proof by induction over 16-byte chunks and 64 KiB blocks, core Lean, no finite bound). Tie: write_code_hex / write_eeprom_hex run on every length < 600 and every length within a record of each 64 KiB boundary up to the largest flash of the table; file bytes compared with the model and fed to the same independent reader.',
+   note='Trusted: Lean kernel; the ihex crate (a dependency) is modelled, tied by correspondence only; OS file writes assumed faithful; the reader spec (Spec.Hex) is a hand-written statement of the Intel HEX format.',
+   technique='Lean 4 theorem (reader o writer = identity, unbounded length) + differential correspondence on real files', ref='6/C07'),
  'C12': dict(
    text='Machine-checked proof (Lean 4): Gen obligation devices_match_partdefs (every shipped includes/*def.inc that names a device of the table declares exactly the four capacities the table enforces; table re-extracted by executing DEVICES, part files re-parsed, on every run); build_fits / limits_exact (a build succeeds iff code <= 2*flash words, eeprom <= eeprom bytes, RAM extent <= RAM size of the device selected, and reports that device\'s sizes); pass1_within; unknown/second device are errors; documented defaults. Tie: exhaustive differential run over every device x 3 memories x {-1,0,+1} x ways of filling.',
    note='Trusted: Lean kernel, static parser of the part files, hand-written model of builder/mod.rs + pass1 tied by correspondence; for devices without a part file the expected capacity is the code\'s own row.',
